@@ -81,8 +81,10 @@ CHECKS = {
  "C13": ("Lean 4 theorems about a code-shaped model of row-level filtering: the evaluation loops of _column_filter compute the OR over "
          "groups of the AND over conditions with a flat list being one AND group; slicing a selection per row group / per page and "
          "concatenating equals applying it to the whole; filtering level and value arrays separately inside a page and scattering "
-         "back yields exactly the selected rows, nulls included; the filtered count is the number of selected rows; the full "
-         "statement about partition columns inside OR groups is refuted by a proved witness (known finding). The harness checks the "
+         "back yields exactly the selected rows, nulls included; the filtered count is the number of selected rows; row_filter_exact: with a "
+         "condition on a partition column evaluated per row group (_partition_term, the repaired code; skeleton regenerated) the selection is exactly "
+         "the rows satisfying ALL conditions of some group (the model with the term skipped - the code before repair - is refuted by a proved "
+         "witness). The harness checks the "
          "real reads against brute force over datasets with unequal row groups, multi-page chunks, nulls, v1/v2 pages and "
          "partitions.",
          "Trusted: Lean kernel + standard axioms; page decoding is C01/C03; pandas comparison semantics on missing cells as modelled "
